@@ -142,14 +142,19 @@ pub fn enc64(x: u64) -> [u8; 16] {
     [nib(x, 15), nib(x, 14), nib(x, 13), nib(x, 12), nib(x, 11), nib(x, 10), nib(x, 9), nib(x, 8),
      nib(x, 7), nib(x, 6), nib(x, 5), nib(x, 4), nib(x, 3), nib(x, 2), nib(x, 1), nib(x, 0)]
 }
-/// one allocation, one memcpy per path (String::push per character costs CBMC a growth check each)
+/// one allocation, one memcpy per part, no loop (so that harness unwind bounds stay small)
 pub fn string_of(parts: &[&[u8]]) -> String {
     let mut v: Vec<u8> = Vec::with_capacity(64);
-    let mut i = 0;
-    while i < parts.len() {
-        v.extend_from_slice(parts[i]);
-        i += 1;
-    }
+    let n = parts.len();
+    assert!(n <= 8);
+    if n > 0 { v.extend_from_slice(parts[0]); }
+    if n > 1 { v.extend_from_slice(parts[1]); }
+    if n > 2 { v.extend_from_slice(parts[2]); }
+    if n > 3 { v.extend_from_slice(parts[3]); }
+    if n > 4 { v.extend_from_slice(parts[4]); }
+    if n > 5 { v.extend_from_slice(parts[5]); }
+    if n > 6 { v.extend_from_slice(parts[6]); }
+    if n > 7 { v.extend_from_slice(parts[7]); }
     unsafe { String::from_utf8_unchecked(v) }
 }
 
